@@ -414,10 +414,15 @@ func (p *provider) updateStatus(
 		return
 	}
 
-	// if there is an error, it is always of the below type
+	// an answer of the api server is of the below type; anything else (connection refused,
+	// timeout, ...) means the api server could not be reached
 	var statusErr *errors2.StatusError
 
-	errors.As(err, &statusErr)
+	if !errors.As(err, &statusErr) {
+		p.l.Warn().Err(err).Msgf("Failed updating RuleSet status")
+
+		return
+	}
 
 	switch statusErr.ErrStatus.Code {
 	case http.StatusNotFound:
